@@ -410,6 +410,59 @@ def s_rec(e, x):
     y = e.out("S"); e.f.call([y], e.helper("rec", h_rec), [x]); return y
 
 
+def h_recacc(P):
+    # accumulator-style recursion: the datum reaches the result only through an ARGUMENT of the recursive call
+    f = P.func("recacc", params=[("s", "string"), ("acc", "string")], results=["string"])
+    f.var("t", "string"); f.var("r", "string")
+    with f.if_oracle():
+        f.ret(["acc"])
+    f.cat("t", "acc", "s")
+    f.call(["r"], "recacc", ["s", "t"])
+    f.ret(["r"])
+    return "recacc"
+
+
+def s_recacc(e, x):
+    z = e.tmp("string"); e.f.lit(z, "z")
+    y = e.out("S"); e.f.call([y], e.helper("recacc", h_recacc), [x, z]); return y
+
+
+def h_rec3(P):
+    # mutual recursion through THREE functions ra -> rb -> rc -> ra
+    for name, nxt in (("ra", "rb"), ("rb", "rc"), ("rc", "ra")):
+        f = P.func(name, params=[("a", "string")], results=["string"])
+        f.var("r", "string")
+        with f.if_oracle():
+            f.call(["r"], nxt, ["a"])
+            f.ret(["r"])
+        f.ret(["a"])
+    return "ra"
+
+
+def s_rec3(e, x):
+    y = e.out("S"); e.f.call([y], e.helper("rec3", h_rec3), [x]); return y
+
+
+def h_swapG(P):
+    # one function both reads the global and writes it from its parameter ("remember the last value")
+    if "GW" not in P.globals:
+        P.glob("GW", "string")
+    f = P.func("swapG", params=[("a", "string")], results=["string"])
+    f.var("r", "string")
+    f.gload("r", "GW")
+    f.gstore("GW", "a")
+    f.ret(["r"])
+    return "swapG"
+
+
+def s_swapg(e, x):
+    # two call sites of the same function: the datum enters at the first and leaves at the second
+    g = e.helper("swapG", h_swapG)
+    d0 = e.tmp("string"); e.f.call([d0], g, [x])
+    z = e.tmp("string"); e.f.lit(z, "b")
+    y = e.out("S"); e.f.call([y], g, [z]); return y
+
+
 def s_twoargs(e, x):
     y = e.out("S"); e.f.call([y], e.helper("vari", h_var), ["_", x]); return y
 
@@ -887,6 +940,9 @@ STEPS = {
     "funcval": ("S", "S", "call", s_funcval),
     "methodval": ("IF", "C", "call", s_methodval),
     "rec": ("S", "S", "call", s_rec),
+    "recacc": ("S", "S", "call", s_recacc),
+    "rec3": ("S", "S", "call", s_rec3),
+    "swapg": ("S", "S", "global", s_swapg),
     "twoargs": ("S", "S", "call", s_twoargs),
     "fnparam": ("S", "S", "call", s_fnparam),
     "fnglobal": ("S", "S", "call", s_fnglobal),
